@@ -957,6 +957,57 @@ def rule_e15(ctx, rule_id: str = "C07-E15") -> None:
     ctx.require(n >= 3, "fewer than 3 separator splits found in the package (%d)" % n)
 
 
+def rule_e17(ctx, rule_id: str = "C07-E17") -> None:
+    """Composition i belongs to side i.  Where the sides come as a column of a data frame (the decomposer and the
+    comparator accept a frame as well as a list of records), `column[i]` looks up the row *labelled* i, not the i-th row:
+    on a frame that was sorted, sampled or filtered without `reset_index` the compositions are reported for other rows.
+    A name that may hold a frame column is iterated (or `.iloc` / `.tolist()` is used), never subscripted with a loop
+    counter."""
+    ctx.rule(rule_id, "a value that may be a data-frame column is not subscripted with a positional loop counter", 2)
+    prog = ctx.prog
+    n = 0
+    for q, f in sorted(prog.functions.items()):
+        if not q.startswith("synrbl.SynProcessor."):
+            continue
+        cfg = None
+        cols = {}
+        for st, v, idx in [(a, b, c) for nm in {t.id for x in own_nodes(f.node) if isinstance(x, ast.Assign) for t in x.targets if isinstance(t, ast.Name)} for a, b, c in assignments_to(f, nm)]:
+            if idx is not None or not (isinstance(v, ast.Subscript) and not isinstance(v.slice, ast.Slice)):
+                continue
+            base = unparse(v.value)
+            if not (base.endswith(".data") or base == "data" or base in ("df", "self.df")):
+                continue
+            cfg = cfg or CFG(f.node)
+            nid = cfg.node_of(st)
+            is_list = False
+            for c_, pol in cfg.guards(nid) if nid is not None else []:
+                t = unparse(c_)
+                if "isinstance(" in t and "list" in t and base in t and pol:
+                    is_list = True
+            if is_list:
+                continue
+            for t in st.targets:
+                if isinstance(t, ast.Name):
+                    cols[t.id] = st
+        if not cols:
+            continue
+        counters = set()
+        for x in own_nodes(f.node):
+            if isinstance(x, (ast.For, ast.comprehension)):
+                it = x.iter
+                if isinstance(it, ast.Call) and isinstance(it.func, ast.Name) and it.func.id == "range":
+                    counters |= {v.id for v in ast.walk(x.target) if isinstance(v, ast.Name)}
+                elif isinstance(it, ast.Call) and isinstance(it.func, ast.Name) and it.func.id == "enumerate" and isinstance(x.target, ast.Tuple) and x.target.elts and isinstance(x.target.elts[0], ast.Name):
+                    counters.add(x.target.elts[0].id)
+        for nm, st in sorted(cols.items()):
+            n += 1
+            bad = [x for x in own_nodes(f.node) if isinstance(x, ast.Subscript) and isinstance(x.ctx, ast.Load) and isinstance(x.value, ast.Name) and x.value.id == nm and isinstance(x.slice, ast.Name) and x.slice.id in counters]
+            ctx.instance(rule_id, "%s: %s may be a frame column (%s); subscripted with a loop counter: %s" % (q.split("synrbl.", 1)[-1], nm, unparse(st.value)[:40], bool(bad)), f.loc(st), ok=not bad)
+            if bad:
+                ctx.finding(rule_id, "%s:frame-column-by-counter:%s" % (q.split("synrbl.", 1)[-1], nm), f.loc(bad[0]), "%s may hold a data-frame column (%s) and is read as %s with a positional loop counter: on a frame whose index is not 0..n-1 in order (sorted, sampled, filtered without reset_index) this is a lookup by row label, and the compositions are reported for other rows than the ones they were computed from" % (nm, unparse(st.value)[:40], unparse(bad[0])))
+    ctx.require(n >= 2, "no value that may be a frame column found in SynProcessor (%d)" % n)
+
+
 def rule_e7(ctx) -> None:
     """The carbon-count memo is keyed by the SMILES only although the count
     also depends on the atom type: sound only while the memo lives on an
@@ -1057,3 +1108,9 @@ def check(ctx) -> None:
     rule_e13(ctx)
     rule_e14(ctx)
     rule_e15(ctx)
+    # E16: the signed difference reported for a re-labelled both-sided case is the true difference seen from the other
+    # side: the given vector or its complete negation, charge included (shared with C08-D7)
+    from . import c08
+
+    c08.rule_d7(ctx, "C07-E16")
+    rule_e17(ctx)
